@@ -24,9 +24,10 @@ func init() {
 }
 
 type fanOp struct {
-	Op string `json:"op"` // spawn | inject | stop | despawn
+	Op string `json:"op"` // spawn | inject | stop | despawn | spawn_many (all of Cs attached at the same moment)
 	C  string `json:"c,omitempty"`
 	M  int    `json:"m,omitempty"`
+	Cs []string `json:"cs,omitempty"`
 }
 
 type fanScenario struct {
@@ -128,6 +129,40 @@ func runFanScenario(sc fanScenario) (line fanLine) {
 		}()
 	}
 	for _, op := range sc.Ops {
+		if op.Op == "spawn_many" {
+			// the manager attaches every device from a goroutine of its own: several SpawnOutput calls at the same moment
+			start := make(chan struct{})
+			var wg sync.WaitGroup
+			for _, name := range op.Cs {
+				rec := &fanOpRec{Op: "spawn", C: name, Ret: -1}
+				recs = append(recs, rec)
+				wg.Add(1)
+				go func(name string, rec *fanOpRec) {
+					defer wg.Done()
+					defer guard()
+					<-start
+					rec.Call = tick()
+					id, ch, err := f.SpawnOutput()
+					if err != nil {
+						panic("SpawnOutput: " + err.Error())
+					}
+					c := &fanConsumer{id: id, ch: ch, reading: true, stop: make(chan struct{})}
+					consMu.Lock()
+					cons[name] = c
+					consMu.Unlock()
+					startReader(name, c)
+					rec.Ret = tick()
+				}(name, rec)
+			}
+			close(start)
+			done := make(chan struct{})
+			go func() { wg.Wait(); close(done) }()
+			select {
+			case <-done:
+			case <-time.After(grace):
+			}
+			continue
+		}
 		rec := &fanOpRec{Op: op.Op, C: op.C, M: op.M}
 		recs = append(recs, rec)
 		switch op.Op {
